@@ -23,7 +23,10 @@ func init() {
 }
 
 func runC12Shared(c *sim.Ctx, t *testing.T) {
-	cfg := genCfg{native: true, failOps: true, nullRet: true, permanents: true, guards: true, guardEmits: true, loops: true, maxNodes: 4}
+	// run-specific variable names: anything the matcher might remember per name
+	// (process-wide) is cold when the walkers start
+	cfg := genCfg{native: true, failOps: true, nullRet: true, permanents: true, guards: true, guardEmits: true, loops: true, maxNodes: 4,
+		ineqSuffix: fmt.Sprintf("%d", c.Seed%1000003)}
 	c.PermuteOff = true
 	sim.Install(c)
 	gs := genSpec(c, cfg)
@@ -60,11 +63,24 @@ func runC12Shared(c *sim.Ctx, t *testing.T) {
 		if w.start.Bs == nil {
 			w.start.Bs = map[string]interface{}{}
 		}
+		if c.Bool("boundineq") {
+			w.start.Bs[ineqName] = []interface{}{1.0, 2.0, 10.0}[c.Intn(3, "bound")]
+		}
 		ws[i] = w
 	}
 	sim.Uninstall()
-	// the same walks alone (in a bubble of their own, so that no goroutine of
-	// this phase is still around when the concurrent phase starts)
+	sim.Bubble(c, t, func(s *sim.Sched) {
+		s.MaxSteps = 8000
+		for i, w := range ws {
+			w := w
+			s.Go(fmt.Sprintf("w%d", i), func(tk *sim.Task) { walkAll(w, &w.got) })
+		}
+		s.Run()
+		s.Drain(500)
+	})
+	conc := c.Sched
+	// afterwards the same walks alone, for comparison (afterwards, so that the
+	// sequential phase cannot warm anything up for the concurrent one)
 	soloPanic := false
 	sim.Bubble(c, t, func(s *sim.Sched) {
 		for _, w := range ws {
@@ -78,18 +94,9 @@ func runC12Shared(c *sim.Ctx, t *testing.T) {
 	if soloPanic {
 		return
 	}
-	sim.Bubble(c, t, func(s *sim.Sched) {
-		s.MaxSteps = 8000
-		for i, w := range ws {
-			w := w
-			s.Go(fmt.Sprintf("w%d", i), func(tk *sim.Task) { walkAll(w, &w.got) })
-		}
-		s.Run()
-		s.Drain(500)
-	})
 	for i, w := range ws {
 		if len(w.got) != len(w.solo) {
-			c.Violate("shared:incomplete", "walker %d finished %d of %d walks (stuck: %v)", i, len(w.got), len(w.solo), c.Sched.Stuck)
+			c.Violate("shared:incomplete", "walker %d finished %d of %d walks (stuck: %v)", i, len(w.got), len(w.solo), conc.Stuck)
 			continue
 		}
 		for j := range w.got {
@@ -99,11 +106,13 @@ func runC12Shared(c *sim.Ctx, t *testing.T) {
 			}
 		}
 	}
+	c.MixHash(fmt.Sprintf("%016x/%d", conc.Hash, conc.Steps))
+	c.Add("scheduler_steps_concurrent_phase", conc.Steps)
 	c.Add("walkers", nw)
-	c.Add("steps_with_choice", c.Sched.Switches)
+	c.Add("steps_with_choice", conc.Switches)
 	c.MixHash(specJSON(gs))
-	c.Path = specJSON(gs) + fmt.Sprintf("%016x", c.Sched.Hash)
-	c.Trivial = c.Sched.Switches == 0
+	c.Path = specJSON(gs) + fmt.Sprintf("%016x", conc.Hash)
+	c.Trivial = conc.Switches == 0
 	c.Sample = map[string]interface{}{"spec": gs, "walkers": nw}
 }
 
